@@ -158,6 +158,23 @@ func (e *env) sharesOf(ctx sdk.Context, who common.Address) *big.Int {
 	return new(big.Int)
 }
 
+// dustOf: the fractional part of the delegation's shares in 10^-18 units (0 on a validator that was never slashed)
+func (e *env) dustOf(ctx sdk.Context, who common.Address) *big.Int {
+	if d, err := e.s.App.StakingKeeper.GetDelegation(ctx, who.Bytes(), e.s.ValAddr[0]); err == nil {
+		return new(big.Int).Mod(d.Shares.BigInt(), big.NewInt(1e18))
+	}
+	return new(big.Int)
+}
+
+// valRate: bonded tokens and delegator shares (10^-18 units) of validator 0
+func (e *env) valRate(ctx sdk.Context) (*big.Int, *big.Int) {
+	v, err := e.s.App.StakingKeeper.GetValidator(ctx, e.s.ValAddr[0])
+	if err != nil {
+		return new(big.Int), new(big.Int)
+	}
+	return v.Tokens.BigInt(), v.DelegatorShares.BigInt()
+}
+
 func (e *env) allowance(ctx sdk.Context, owner, spender common.Address) *big.Int {
 	return e.s.App.StakingKeeper.GetAllowance(ctx, e.s.ValAddr[0], owner.Bytes(), spender.Bytes())
 }
@@ -845,8 +862,8 @@ func phaseHistory(t *testing.T, e *env, rng *rand.Rand, out *hx.Out) {
 		cctx, _ := e.s.Ctx.CacheContext()
 		out.Reset()
 		// scenario class: the validator has been SLASHED before the history starts (one share is worth less than one token), so
-		// that "shares moved" and "tokens moved" differ in every allowance-consuming transfer; such sequences use the
-		// share-denominated methods only (delegate / undelegate would create fractional shares the 1:1 model does not have)
+		// that "shares moved" and "tokens moved" differ in every allowance-consuming transfer; since round 4 the model world
+		// carries the validator's rate (tokens, shares·10^18) and every delegation's fractional shares ("dust")
 		slashed := false
 		if sq >= len(corpus) && sq%3 == 2 {
 			if val, err := app.StakingKeeper.GetValidator(cctx, e.s.ValAddr[0]); err == nil {
@@ -865,7 +882,14 @@ func phaseHistory(t *testing.T, e *env, rng *rand.Rand, out *hx.Out) {
 		}
 		for _, a := range accts {
 			out.Emit(fmt.Sprintf("set shares %d %s", a.id, e.sharesOf(cctx, a.addr)), "ok")
+			if d := e.dustOf(cctx, a.addr); d.Sign() != 0 {
+				out.Emit(fmt.Sprintf("set dust %d %s", a.id, d), "ok")
+			}
 			out.Emit(fmt.Sprintf("set bal %d %s", a.id, app.BankKeeper.GetBalance(cctx, a.addr.Bytes(), fxtypes.DefaultDenom).Amount), "ok")
+		}
+		{
+			vt, vs := e.valRate(cctx)
+			out.Emit(fmt.Sprintf("set val %s %s", vt, vs), "ok")
 		}
 		var poolIDs []uint64
 		maxID := uint64(0)
@@ -884,6 +908,7 @@ func phaseHistory(t *testing.T, e *env, rng *rand.Rand, out *hx.Out) {
 		approved := map[pair]*big.Int{}
 		spent := map[pair]*big.Int{}
 		undelegations := map[int]int{}
+		redelegations := map[int]int{}
 		var lastApproved *pair
 		nOps := opsPer
 		if sq < len(corpus) {
@@ -924,8 +949,10 @@ func phaseHistory(t *testing.T, e *env, rng *rand.Rand, out *hx.Out) {
 			roll := rng.Intn(100)
 			var entries []string
 			scripted := sq < len(corpus)
-			if slashed && !scripted && roll >= 70 && roll < 79 {
-				roll = 25 + rng.Intn(45) // no delegate / undelegate on a slashed validator: an allowance-consuming or plain share transfer instead
+			// round 4: delegate / undelegate / redelegate are drawn on slashed validators too (the model world knows the
+			// validator's exchange rate: fractional shares, sdk.Dec rounding) — and more often there
+			if slashed && !scripted && roll >= 83 && rng.Intn(2) == 0 {
+				roll = 70 + rng.Intn(9)
 			}
 			if scripted {
 				// h <kind> <caller> <origin> <addr> <mid> <entries|-> <method> <args…>
@@ -978,6 +1005,8 @@ func phaseHistory(t *testing.T, e *env, rng *rand.Rand, out *hx.Out) {
 					data, _ = sabi.Pack(method, v0, byID[acc(0)].addr, num(1))
 				case "delegateV2", "undelegateV2":
 					data, _ = sabi.Pack(method, v0, num(0))
+				case "redelegateV2":
+					data, _ = sabi.Pack(method, v0, e.vals[1], num(0))
 				case "withdraw":
 					data, _ = sabi.Pack(method, v0)
 				case "cancelSendToExternal":
@@ -1103,6 +1132,23 @@ func phaseHistory(t *testing.T, e *env, rng *rand.Rand, out *hx.Out) {
 				amt := pickAmt(big.NewInt(1), small(), small(), sh, plus(sh, 1), new(big.Int).Rsh(sh, 3))
 				data, _ = sabi.Pack(method, v0, byID[toID].addr, amt)
 				argStr = fmt.Sprintf("%d %s", toID, amt)
+			case roll < 73 && redelegations[caller.id] < 3 && kind == evmx.KCall:
+				// round 4: redelegate v0 -> v1 (v0 is never a destination, so no transitive-redelegation refusal; at most 3 per
+				// delegator: the SDK keeps at most 7 entries per triple); amounts around what the caller has on v0
+				method = "redelegateV2"
+				sh := sharesOf(caller.id)
+				amt := pickAmt(small(), small(), big.NewInt(1), sh, plus(sh, 1), new(big.Int).Rsh(sh, 2))
+				data, _ = sabi.Pack(method, v0, e.vals[1], amt)
+				argStr = amt.String()
+				redelegations[caller.id]++
+				switch {
+				case amt.Cmp(sh) > 0:
+					out.Count("hist:redelegate:more-than-delegated")
+				case amt.Cmp(sh) == 0:
+					out.Count("hist:redelegate:everything")
+				default:
+					out.Count("hist:redelegate:part")
+				}
 			case roll < 75:
 				method = "delegateV2"
 				amt := small()
@@ -1276,7 +1322,10 @@ func phaseHistory(t *testing.T, e *env, rng *rand.Rand, out *hx.Out) {
 				var f, toID int
 				fmt.Sscan(argStr, &f, &toID)
 				obs = fmt.Sprintf("al=%s sa=%s sb=%s", allowOf(f, caller.id), sharesOf(f), sharesOf(toID))
-			case "delegateV2", "undelegateV2", "withdraw":
+			case "delegateV2", "undelegateV2", "redelegateV2":
+				vt, _ := e.valRate(cctx)
+				obs = fmt.Sprintf("sa=%s du=%s vt=%s", sharesOf(caller.id), e.dustOf(cctx, caller.addr), vt)
+			case "withdraw":
 				obs = fmt.Sprintf("sa=%s", sharesOf(caller.id))
 			case "cancelSendToExternal", "increaseBridgeFee", "crossChain":
 				var parts []string
